@@ -146,11 +146,20 @@ def cache_check(chk, kf):
             return [json.loads(l)[0]['out'] for l in p.stdout.strip().split('\n')] if p.returncode == 0 and p.stdout.strip() else ['X runner rc=%s' % p.returncode] * len(probes)
         if mode == 'warm': call()
         if mode == 'stale':
-            call()
-            fs = sorted(f for f in os.listdir(d) if f.startswith('ply_ia32_') and f.endswith('.py'))
-            if len(fs) == 2:      # swap the two grammars' tables: valid table modules of ANOTHER grammar under the expected names
-                a, b = [os.path.join(d, f) for f in fs]
-                ta, tb = open(a).read(), open(b).read(); open(a, 'w').write(tb); open(b, 'w').write(ta)
+            # tables written by ANOTHER REVISION of the grammars under the same file names: a scratch copy of the library with
+            # the precedence levels of + - * merged is imported once with TMPDIR = this directory
+            src = os.path.join(base, 'stale_src'); shutil.rmtree(src, ignore_errors=True); os.makedirs(src)
+            shutil.copytree(os.path.join(REPO, 'miasmx'), os.path.join(src, 'miasmx')); shutil.copytree(os.path.join(REPO, 'ply'), os.path.join(src, 'ply'))
+            patched = 0
+            for f in ('miasmx/core/parse_ad.py', 'miasmx/arch/ia32_att.py'):
+                t = open(os.path.join(src, f)).read()
+                t2 = t.replace("    ('left','PLUS','MINUS'),\n    ('left','TIMES'),", "    ('left','PLUS','MINUS','TIMES'),")
+                if t2 != t: patched += 1; open(os.path.join(src, f), 'w').write(t2)
+            chk.cov['stale_grammars_patched'] = patched
+            env2 = dict(env); env2['PYTHONPATH'] = src
+            subprocess.run([PY, '-c', "from miasmx.arch.ia32_arch import x86mnemo; x86mnemo.asm('mov eax, 5'); x86mnemo.asm_att('movl $5, %eax')"],
+                           env=env2, stdout=subprocess.DEVNULL, stderr=subprocess.DEVNULL, timeout=120)
+            shutil.rmtree(src, ignore_errors=True)
             for f in os.listdir(d):
                 if f == '__pycache__': shutil.rmtree(os.path.join(d, f), ignore_errors=True)
         res[mode] = call()
